@@ -2,9 +2,9 @@
    A run is a left fold of "compare, then write if different and non-empty" steps over the list of
    files the run reaches (its plan); with pairwise distinct paths each step only sees and only
    changes its own file, which gives a closed form for every file after a run.  Idempotence,
-   freshness, the skip-when-empty carve-out, the Codable.swift finding and "everything else is
+   freshness, the skip-when-empty carve-out, the behaviour on Codable.swift and "everything else is
    untouched" are read off that closed form; the history theorems are inductions on the list of
-   runs. *)
+   runs.  (Model of the code after fix 0622333: Codable.swift is compared with what is written.) *)
 From Coq Require Import Lia.
 From TS Require Import Model.Str Model.Writer Spec.C17Spec.
 
@@ -26,14 +26,50 @@ Proof.
     + destruct (str_eqb r q); auto.
 Qed.
 
-Definition path_eq_dec : forall a b : fpath, {a = b} + {a <> b} := list_eq_dec N.eq_dec.
+(* ------------------------------------------------------------------ strip_suffix(b"\n") *)
+Lemma strip_suffix_nl_spec buf : forall c, strip_suffix_nl buf = Some c <-> buf = c ++ [ch_nl].
+Proof.
+  induction buf as [|x r IH]; intros c.
+  - simpl. split; [discriminate|]. intro E. now destruct c.
+  - cbn [strip_suffix_nl]. destruct r as [|y r'].
+    + destruct (x =? ch_nl) eqn:E.
+      * apply N.eqb_eq in E. subst x. split.
+        -- intros H. injection H as <-. reflexivity.
+        -- intros H. destruct c as [|z c']; [reflexivity|]. simpl in H. injection H as _ H. now destruct c'.
+      * apply N.eqb_neq in E. split; [discriminate|]. intros H.
+        destruct c as [|z c']; simpl in H.
+        -- injection H as H. contradiction.
+        -- injection H as _ H. now destruct c'.
+    + destruct (strip_suffix_nl (y :: r')) as [b|] eqn:Es; cbn [option_map].
+      * pose proof (proj1 (IH b) eq_refl) as Hb. split.
+        -- intros H. injection H as <-. simpl. now rewrite Hb.
+        -- intros H. destruct c as [|z c']; simpl in H.
+           ++ injection H as _ H. discriminate.
+           ++ injection H as <- H. apply IH in H. injection H as <-. reflexivity.
+      * split; [discriminate|]. intros H. destruct c as [|z c']; simpl in H.
+        -- injection H as _ H. discriminate.
+        -- injection H as _ H. apply IH in H. discriminate.
+Qed.
+
+(* the comparison of write_codable_file = equality with what write_codable writes *)
+Lemma codable_compare buf c :
+  match strip_suffix_nl buf with Some b => str_eqb b c | None => false end = str_eqb buf (write_codable c).
+Proof.
+  unfold write_codable. destruct (strip_suffix_nl buf) as [b|] eqn:E.
+  - apply strip_suffix_nl_spec in E. subst buf. destruct (str_eqb b c) eqn:E2.
+    + apply str_eqb_eq in E2. subst. now rewrite str_eqb_refl.
+    + symmetry. apply str_eqb_neq. intro H. apply app_inv_tail in H. subst. now rewrite str_eqb_refl in E2.
+  - symmetry. apply str_eqb_neq. intro H. apply strip_suffix_nl_spec in H. congruence.
+Qed.
+
+Definition fpath_eq_dec : forall a b : fpath, {a = b} + {a <> b} := list_eq_dec N.eq_dec.
 
 (* ------------------------------------------------------------------ one compare-and-write step *)
-Record action := mk_action { a_path : fpath; a_expect : bytes; a_data : bytes }.
+Record action := mk_action { a_path : fpath; a_data : bytes }.
 
 Definition step (now : mtime) (s : fs) (a : action) : fs :=
   let same := match fs_read s (a_path a) with
-              | Some (buf, _) => str_eqb buf (a_expect a)
+              | Some (buf, _) => str_eqb buf (a_data a)
               | None => false
               end in
   if same then s
@@ -43,7 +79,7 @@ Definition step (now : mtime) (s : fs) (a : action) : fs :=
 (* what the step does to its own file, as a function of what was there *)
 Definition step_file (now : mtime) (old : option file) (a : action) : option file :=
   let same := match old with
-              | Some (buf, _) => str_eqb buf (a_expect a)
+              | Some (buf, _) => str_eqb buf (a_data a)
               | None => false
               end in
   if same then old
@@ -53,14 +89,14 @@ Definition step_file (now : mtime) (old : option file) (a : action) : option fil
 Lemma step_self now s a : fs_read (step now s a) (a_path a) = step_file now (fs_read s (a_path a)) a.
 Proof.
   unfold step, step_file.
-  destruct (match fs_read s (a_path a) with Some (buf, _) => str_eqb buf (a_expect a) | None => false end); auto.
+  destruct (match fs_read s (a_path a) with Some (buf, _) => str_eqb buf (a_data a) | None => false end); auto.
   destruct (negb (is_empty_bytes (a_data a))); auto. apply read_write_same.
 Qed.
 
 Lemma step_other now s a q : a_path a <> q -> fs_read (step now s a) q = fs_read s q.
 Proof.
   intros N. unfold step.
-  destruct (match fs_read s (a_path a) with Some (buf, _) => str_eqb buf (a_expect a) | None => false end); auto.
+  destruct (match fs_read s (a_path a) with Some (buf, _) => str_eqb buf (a_data a) | None => false end); auto.
   destruct (negb (is_empty_bytes (a_data a))); auto. now apply read_write_other.
 Qed.
 
@@ -88,18 +124,15 @@ Qed.
 
 (* a step that will not change the file system *)
 Definition settled (s : fs) (a : action) : Prop :=
-  (exists m, fs_read s (a_path a) = Some (a_expect a, m)) \/ a_data a = [].
+  (exists m, fs_read s (a_path a) = Some (a_data a, m)) \/ a_data a = [].
 
 Lemma settled_step now s a : settled s a -> step now s a = s.
 Proof.
   intros [[m E]|E]; unfold step.
   - rewrite E, str_eqb_refl. reflexivity.
   - rewrite E. simpl.
-    destruct (match fs_read s (a_path a) with Some (buf, _) => str_eqb buf (a_expect a) | None => false end); reflexivity.
+    destruct (match fs_read s (a_path a) with Some (buf, _) => str_eqb buf [] | None => false end); reflexivity.
 Qed.
-
-Lemma settled_step_file now s a : settled s a -> step_file now (fs_read s (a_path a)) a = fs_read s (a_path a).
-Proof. intros H. rewrite <- step_self. now rewrite settled_step. Qed.
 
 Lemma exec_settled now l s : (forall a, In a l -> settled s a) -> exec now l s = s.
 Proof.
@@ -108,62 +141,40 @@ Proof.
   apply IH. intros b Hb. apply H. now right.
 Qed.
 
-(* check_write_file steps compare with what they write; the Codable.swift step does not *)
-Definition plain (a : action) : Prop := a_expect a = a_data a.
-
 Lemma empty_bytes_nil b : is_empty_bytes b = true -> b = [].
 Proof. destruct b; [reflexivity|discriminate]. Qed.
 
-Lemma step_file_plain_settles now old a : plain a ->
-  (exists m, step_file now old a = Some (a_expect a, m)) \/ a_data a = [].
+Lemma step_file_settles now old a :
+  (exists m, step_file now old a = Some (a_data a, m)) \/ a_data a = [].
 Proof.
-  intros Hp. unfold step_file. destruct old as [[buf m]|].
-  - destruct (str_eqb buf (a_expect a)) eqn:E.
+  unfold step_file. destruct old as [[buf m]|].
+  - destruct (str_eqb buf (a_data a)) eqn:E.
     + apply str_eqb_eq in E. subst. left. eauto.
     + destruct (is_empty_bytes (a_data a)) eqn:E2; simpl.
       * right. now apply empty_bytes_nil.
-      * left. rewrite Hp. eauto.
+      * left. eauto.
   - destruct (is_empty_bytes (a_data a)) eqn:E2; simpl.
     + right. now apply empty_bytes_nil.
-    + left. rewrite Hp. eauto.
+    + left. eauto.
 Qed.
 
-Lemma settled_after now l s a : NoDup (map a_path l) -> In a l -> plain a -> settled (exec now l s) a.
+Lemma settled_after now l s a : NoDup (map a_path l) -> In a l -> settled (exec now l s) a.
 Proof.
-  intros ND Hin Hp. unfold settled. rewrite exec_in by assumption.
-  now apply step_file_plain_settles.
+  intros ND Hin. unfold settled. rewrite exec_in by assumption. apply step_file_settles.
 Qed.
 
-Lemma exec_idempotent t1 t2 l s : NoDup (map a_path l) -> (forall a, In a l -> plain a) ->
-  exec t2 l (exec t1 l s) = exec t1 l s.
-Proof. intros ND Hp. apply exec_settled. intros a Ha. apply settled_after; auto. Qed.
-
-(* bytes (not the time stamp) after two identical steps = after one, for ANY step *)
-Lemma step_file_twice_content t1 t2 old a :
-  option_map fst (step_file t2 (step_file t1 old a) a) = option_map fst (step_file t1 old a).
-Proof.
-  unfold step_file at 2 3.
-  destruct old as [[buf m]|].
-  - destruct (str_eqb buf (a_expect a)) eqn:E.
-    + unfold step_file. now rewrite E.
-    + destruct (is_empty_bytes (a_data a)) eqn:E2; simpl.
-      * unfold step_file. now rewrite E, E2.
-      * unfold step_file. rewrite E2. simpl. now destruct (str_eqb (a_data a) (a_expect a)).
-  - destruct (is_empty_bytes (a_data a)) eqn:E2; simpl.
-    + unfold step_file. now rewrite E2.
-    + unfold step_file. rewrite E2. simpl. now destruct (str_eqb (a_data a) (a_expect a)).
-Qed.
+Lemma exec_idempotent t1 t2 l s : NoDup (map a_path l) -> exec t2 l (exec t1 l s) = exec t1 l s.
+Proof. intros ND. apply exec_settled. intros a Ha. now apply settled_after. Qed.
 
 (* ------------------------------------------------------------------ a run is the exec of its plan *)
-Definition act_file (p : fpath) (b : bytes) : action := mk_action p b b.
-Definition act_codable (folder : fpath) (c : bytes) : action := mk_action (codable_path folder) c (c ++ [ch_nl]).
+Definition act_codable (folder : fpath) (c : bytes) : action := mk_action (codable_path folder) (c ++ [ch_nl]).
 Definition crate_actions (folder : fpath) (crates : list (fpath * gen_result)) : list action :=
-  map (fun c => act_file (path_join folder (fst c)) (snd c)) (generated_prefix crates).
+  map (fun c => mk_action (path_join folder (fst c)) (snd c)) (generated_prefix crates).
 
 Definition plan (o : outputs) : list action :=
   match o with
   | ParseErrors => []
-  | SingleFile f (Some (Generated b)) => [act_file f b]
+  | SingleFile f (Some (Generated b)) => [mk_action f b]
   | SingleFile _ _ => []
   | MultiFile folder crates codable =>
       crate_actions folder crates ++
@@ -195,8 +206,10 @@ Proof. now destruct c. Qed.
 
 Lemma write_codable_file_step s now folder c : write_codable_file s now folder c = step now s (act_codable folder c).
 Proof.
-  unfold write_codable_file, step, act_codable, write_codable, codable_path. cbn [a_path a_expect a_data].
-  rewrite nonempty_snoc. reflexivity.
+  unfold write_codable_file, step, act_codable, codable_path. cbn [a_path a_data].
+  rewrite nonempty_snoc. cbn [negb].
+  destruct (fs_read s (path_join folder CODABLE_FILE)) as [[buf m]|]; [|reflexivity].
+  now rewrite codable_compare.
 Qed.
 
 Lemma run_full_spec s now o :
@@ -219,21 +232,6 @@ Proof. rewrite run_full_spec. simpl. destruct (succeeds o); split; congruence. Q
 Lemma plan_nodup o : NoDup (may_touch o) -> NoDup (map a_path (plan o)).
 Proof. now rewrite plan_paths. Qed.
 
-(* the actions of a plan that are not the Codable.swift step are plain *)
-Lemma plan_plain o a : In a (plan o) -> ~ In (a_path a) (rewritten_each_run o) -> plain a.
-Proof.
-  destruct o as [|f [[b|]|]|folder crates codable]; simpl; try contradiction.
-  - intros [<-|[]] _. reflexivity.
-  - intros Hin Hnot. apply in_app_or in Hin as [Hin|Hin].
-    + unfold crate_actions in Hin. apply in_map_iff in Hin as (c & <- & _). reflexivity.
-    + destruct (all_generated crates); [|contradiction].
-      destruct codable as [c|]; [|contradiction].
-      destruct Hin as [<-|[]]. exfalso. apply Hnot. simpl. now left.
-Qed.
-
-Lemma known_none o : known_C17 o = None -> rewritten_each_run o = [].
-Proof. unfold known_C17. destruct (rewritten_each_run o); [reflexivity|discriminate]. Qed.
-
 Lemma responsible_plan o : succeeds o = true ->
   responsible o = map (fun a => (a_path a, a_data a)) (plan o).
 Proof.
@@ -254,17 +252,16 @@ Qed.
 
 (* ------------------------------------------------------------------ closed form of one run *)
 Theorem run_read_responsible s t o p b :
-  NoDup (may_touch o) -> In (p, b) (responsible o) -> ~ In p (rewritten_each_run o) ->
+  NoDup (may_touch o) -> In (p, b) (responsible o) ->
   fs_read (run s t o) p =
   match fs_read s p with
   | Some (old, m) => if str_eqb old b then Some (old, m) else if is_empty_bytes b then Some (old, m) else Some (b, t)
   | None => if is_empty_bytes b then None else Some (b, t)
   end.
 Proof.
-  intros ND Hin Hnot. destruct (responsible_action _ _ _ Hin) as (a & Ha & <- & <-).
+  intros ND Hin. destruct (responsible_action _ _ _ Hin) as (a & Ha & <- & <-).
   rewrite run_plan, exec_in by (auto using plan_nodup).
-  pose proof (plan_plain o a Ha Hnot) as Hp. unfold plain in Hp.
-  unfold step_file. rewrite Hp.
+  unfold step_file.
   destruct (fs_read s (a_path a)) as [[old m]|].
   - destruct (str_eqb old (a_data a)); [reflexivity|]. now destruct (is_empty_bytes (a_data a)).
   - now destruct (is_empty_bytes (a_data a)).
@@ -274,84 +271,61 @@ Theorem untouched s t o p : ~ In p (may_touch o) -> fs_read (run s t o) p = fs_r
 Proof. intros H. rewrite run_plan. apply exec_notin. now rewrite plan_paths. Qed.
 
 (* ------------------------------------------------------------------ (a) idempotence *)
-Theorem idempotent s t1 t2 o :
-  NoDup (may_touch o) -> known_C17 o = None -> run (run s t1 o) t2 o = run s t1 o.
-Proof.
-  intros ND K. rewrite !run_plan. apply exec_idempotent; [now apply plan_nodup|].
-  intros a Ha. apply (plan_plain o a Ha). rewrite (known_none o K). auto.
-Qed.
+Theorem idempotent s t1 t2 o : NoDup (may_touch o) -> run (run s t1 o) t2 o = run s t1 o.
+Proof. intros ND. rewrite !run_plan. apply exec_idempotent. now apply plan_nodup. Qed.
 
 Definition reruns (o : outputs) (ts : list mtime) : history := map (fun t => (t, o)) ts.
 
 Theorem idempotent_history s0 h t o ts :
-  NoDup (may_touch o) -> known_C17 o = None ->
+  NoDup (may_touch o) ->
   run_history s0 (h ++ (t, o) :: reruns o ts) = run_history s0 (h ++ [(t, o)]).
 Proof.
-  intros ND K. unfold run_history. rewrite !fold_left_app. cbn [fold_left fst snd].
+  intros ND. unfold run_history. rewrite !fold_left_app. cbn [fold_left fst snd].
   generalize (fold_left (fun s' r => run s' (fst r) (snd r)) h s0). intros s.
   induction ts as [|t' ts IH]; [reflexivity|].
   cbn [reruns map fold_left fst snd]. rewrite idempotent by assumption. exact IH.
 Qed.
 
-(* every file except Codable.swift keeps bytes and time stamp on an identical re-run *)
-Theorem rerun_read s t1 t2 o p :
-  NoDup (may_touch o) -> ~ In p (rewritten_each_run o) ->
-  fs_read (run (run s t1 o) t2 o) p = fs_read (run s t1 o) p.
+(* ------------------------------------------------------------------ Codable.swift *)
+Lemma codable_responsible folder crates c :
+  all_generated crates = true ->
+  In (codable_path folder, c ++ [ch_nl]) (responsible (MultiFile folder crates (Some c))).
 Proof.
-  intros ND Hnot. rewrite !run_plan.
-  destruct (in_dec path_eq_dec p (map a_path (plan o))) as [Hin|Hout].
-  - apply in_map_iff in Hin as (a & <- & Ha).
-    rewrite (exec_in t2) by (auto using plan_nodup).
-    apply settled_step_file. apply settled_after; auto using plan_nodup.
-    now apply (plan_plain o).
-  - now rewrite exec_notin.
+  intros AG. unfold responsible. cbn [succeeds]. rewrite AG. apply in_or_app. right. now left.
 Qed.
 
-(* the bytes of EVERY file survive an identical re-run, Codable.swift included *)
-Theorem rerun_content s t1 t2 o p :
-  NoDup (may_touch o) -> content (run (run s t1 o) t2 o) p = content (run s t1 o) p.
-Proof.
-  intros ND. unfold content. rewrite !run_plan.
-  destruct (in_dec path_eq_dec p (map a_path (plan o))) as [Hin|Hout].
-  - apply in_map_iff in Hin as (a & <- & Ha).
-    rewrite (exec_in t2), (exec_in t1) by (auto using plan_nodup).
-    apply step_file_twice_content.
-  - now rewrite !exec_notin.
-Qed.
-
-Lemma snoc_neq (c : bytes) x : str_eqb (c ++ [x]) c = false.
-Proof.
-  apply str_eqb_neq. intro E. apply (f_equal (@List.length _)) in E. rewrite app_length in E. simpl in E. lia.
-Qed.
-
-(* the finding: unless a file holding exactly get_codable_contents() (no newline) was there before,
-   Codable.swift is written by the first run and written again by the identical second run *)
-Theorem codable_rewritten s t1 t2 folder crates c :
+(* an up-to-date Codable.swift (the contents and the newline) is left alone, time stamp included *)
+Theorem codable_up_to_date_untouched s t folder crates c m :
   let o := MultiFile folder crates (Some c) in
-  all_generated crates = true -> NoDup (may_touch o) -> content s (codable_path folder) <> Some c ->
-  fs_read (run (run s t1 o) t2 o) (codable_path folder) = Some (c ++ [ch_nl], t2).
+  all_generated crates = true -> NoDup (may_touch o) ->
+  fs_read s (codable_path folder) = Some (c ++ [ch_nl], m) ->
+  fs_read (run s t o) (codable_path folder) = Some (c ++ [ch_nl], m).
+Proof.
+  intros o AG ND E.
+  rewrite (run_read_responsible s t o _ _ ND (codable_responsible folder crates c AG)).
+  now rewrite E, str_eqb_refl.
+Qed.
+
+(* anything else under that name (absent, stale, the contents WITHOUT the newline) is replaced *)
+Theorem codable_stale_rewritten s t folder crates c :
+  let o := MultiFile folder crates (Some c) in
+  all_generated crates = true -> NoDup (may_touch o) ->
+  content s (codable_path folder) <> Some (c ++ [ch_nl]) ->
+  fs_read (run s t o) (codable_path folder) = Some (c ++ [ch_nl], t).
 Proof.
   intros o AG ND Hc.
-  assert (Ha : In (act_codable folder c) (plan o)).
-  { simpl. rewrite AG. apply in_or_app. right. now left. }
-  rewrite !run_plan.
-  change (codable_path folder) with (a_path (act_codable folder c)).
-  rewrite (exec_in t2), (exec_in t1) by (auto using plan_nodup).
-  unfold step_file, act_codable. cbn [a_path a_expect a_data]. rewrite nonempty_snoc. cbn [negb].
-  unfold content in Hc.
-  destruct (fs_read s (codable_path folder)) as [[buf m]|].
-  - destruct (str_eqb buf c) eqn:E.
-    + apply str_eqb_eq in E. subst. now elim Hc.
-    + now rewrite snoc_neq.
-  - now rewrite snoc_neq.
+  rewrite (run_read_responsible s t o _ _ ND (codable_responsible folder crates c AG)).
+  rewrite nonempty_snoc. unfold content in Hc.
+  destruct (fs_read s (codable_path folder)) as [[old m]|]; [|reflexivity].
+  destruct (str_eqb old (c ++ [ch_nl])) eqn:E; [|reflexivity].
+  apply str_eqb_eq in E. subst. now elim Hc.
 Qed.
 
 (* ------------------------------------------------------------------ (b) freshness *)
 Theorem fresh_value s t o p b :
-  NoDup (may_touch o) -> In (p, b) (responsible o) -> ~ In p (rewritten_each_run o) -> b <> [] ->
-  content (run s t o) p = Some b.
+  NoDup (may_touch o) -> In (p, b) (responsible o) -> b <> [] -> content (run s t o) p = Some b.
 Proof.
-  intros ND Hin Hnot Hb. unfold content. rewrite (run_read_responsible s t o p b) by assumption.
+  intros ND Hin Hb. unfold content. rewrite (run_read_responsible s t o p b) by assumption.
   assert (E : is_empty_bytes b = false) by (destruct b; [now elim Hb|reflexivity]).
   rewrite E. destruct (fs_read s p) as [[old m]|]; [|reflexivity].
   destruct (str_eqb old b) eqn:E2; [|reflexivity]. apply str_eqb_eq in E2. now subst.
@@ -361,41 +335,19 @@ Lemma run_history_snoc s0 h t o : run_history s0 (h ++ [(t, o)]) = run (run_hist
 Proof. unfold run_history. now rewrite fold_left_app. Qed.
 
 Theorem fresh s0 h t t' o p b :
-  NoDup (may_touch o) -> In (p, b) (responsible o) -> ~ In p (rewritten_each_run o) -> b <> [] ->
+  NoDup (may_touch o) -> In (p, b) (responsible o) -> b <> [] ->
   content (run_history s0 (h ++ [(t, o)])) p = content (run empty_fs t' o) p.
 Proof.
-  intros ND Hin Hnot Hb. rewrite run_history_snoc.
+  intros ND Hin Hb. rewrite run_history_snoc.
   rewrite (fresh_value _ t o p b), (fresh_value _ t' o p b) by assumption. reflexivity.
-Qed.
-
-(* Codable.swift: fresh as well, unless the file held exactly the contents without newline *)
-Theorem fresh_codable s t folder crates c :
-  let o := MultiFile folder crates (Some c) in
-  all_generated crates = true -> NoDup (may_touch o) -> content s (codable_path folder) <> Some c ->
-  content (run s t o) (codable_path folder) = Some (c ++ [ch_nl]).
-Proof.
-  intros o AG ND Hc.
-  assert (Ha : In (act_codable folder c) (plan o)).
-  { simpl. rewrite AG. apply in_or_app. right. now left. }
-  unfold content. rewrite run_plan.
-  change (codable_path folder) with (a_path (act_codable folder c)).
-  rewrite exec_in by (auto using plan_nodup).
-  unfold step_file, act_codable. cbn [a_path a_expect a_data]. rewrite nonempty_snoc. cbn [negb].
-  unfold content in Hc.
-  destruct (fs_read s (codable_path folder)) as [[buf m]|]; [|reflexivity].
-  destruct (str_eqb buf c) eqn:E; [|reflexivity].
-  apply str_eqb_eq in E. subst. now elim Hc.
 Qed.
 
 (* skip-when-empty: an empty output leaves whatever is there *)
 Theorem empty_output_keeps_file s t o p :
   NoDup (may_touch o) -> In (p, []) (responsible o) -> fs_read (run s t o) p = fs_read s p.
 Proof.
-  intros ND Hin. destruct (responsible_action _ _ _ Hin) as (a & Ha & <- & Ed).
-  rewrite run_plan, exec_in by (auto using plan_nodup).
-  unfold step_file. rewrite Ed. simpl.
-  destruct (fs_read s (a_path a)) as [[old m]|]; [|reflexivity].
-  now destruct (str_eqb old (a_expect a)).
+  intros ND Hin. rewrite (run_read_responsible s t o p []) by assumption. simpl.
+  destruct (fs_read s p) as [[old m]|]; [|reflexivity]. now destruct (str_eqb old []).
 Qed.
 
 (* the unrestricted freshness statement is false: an earlier output survives an empty one *)
@@ -405,24 +357,12 @@ Definition w_new : outputs := SingleFile w_path (Some (Generated [])).
 
 Theorem fresh_refuted :
   exists s0 h t t' o p b,
-    NoDup (may_touch o) /\ In (p, b) (responsible o) /\ ~ In p (rewritten_each_run o) /\
+    NoDup (may_touch o) /\ In (p, b) (responsible o) /\
     content (run_history s0 (h ++ [(t, o)])) p <> content (run empty_fs t' o) p.
 Proof.
   exists empty_fs, [(1, w_old)], 2, 3, w_new, w_path, [].
   split; [repeat constructor; simpl; tauto|].
-  split; [now left|]. split; [simpl; tauto|]. vm_compute. discriminate.
-Qed.
-
-(* the unrestricted idempotence statement is false: Swift's Codable.swift gets a new time stamp *)
-Definition w_swift : outputs :=
-  MultiFile (lit "out") [(lit "A.swift", Generated (lit "import Foundation"))] (Some (lit "public struct CodableVoid: Codable {}")).
-
-Theorem idempotent_refuted :
-  exists s t1 t2 o, NoDup (may_touch o) /\ run (run s t1 o) t2 o <> run s t1 o.
-Proof.
-  exists empty_fs, 1, 2, w_swift. split.
-  - repeat constructor; simpl; intuition discriminate.
-  - vm_compute. discriminate.
+  split; [now left|]. vm_compute. discriminate.
 Qed.
 
 (* ------------------------------------------------------------------ (c) everything else is untouched *)
@@ -446,19 +386,18 @@ Lemma fs_same_refl s : fs_same s s = true.
 Proof. unfold fs_same. apply forallb_forall. intros e _. apply file_eqb_refl. Qed.
 
 Theorem rerun_good s t1 t2 o :
-  NoDup (may_touch o) -> known_C17 o = None -> good_rerun (run s t1 o) (run (run s t1 o) t2 o) = true.
-Proof. intros ND K. rewrite idempotent by assumption. apply fs_same_refl. Qed.
+  NoDup (may_touch o) -> good_rerun (run s t1 o) (run (run s t1 o) t2 o) = true.
+Proof. intros ND. rewrite idempotent by assumption. apply fs_same_refl. Qed.
 
 Theorem fresh_good s0 h t t' o :
-  NoDup (may_touch o) -> known_C17 o = None -> nonempty_outputs o = true ->
+  NoDup (may_touch o) -> nonempty_outputs o = true ->
   good_fresh (map fst (responsible o)) (run_history s0 (h ++ [(t, o)])) (run empty_fs t' o) = true.
 Proof.
-  intros ND K NE. unfold good_fresh. apply forallb_forall. intros p Hp.
+  intros ND NE. unfold good_fresh. apply forallb_forall. intros p Hp.
   apply in_map_iff in Hp as ([p' b] & <- & Hin). cbn [fst].
   unfold nonempty_outputs in NE. rewrite forallb_forall in NE. specialize (NE _ Hin). cbn [snd] in NE.
   rewrite (fresh s0 h t t' o p' b); auto.
   - destruct (content (run empty_fs t' o) p'); simpl; [apply str_eqb_refl|reflexivity].
-  - rewrite (known_none o K). auto.
   - intro E. subst. discriminate.
 Qed.
 
@@ -476,13 +415,16 @@ Proof. apply distinct_paths_nodup. Qed.
 
 (* ------------------------------------------------------------------ the hypotheses are satisfiable *)
 Definition ex_o : outputs :=
-  MultiFile (lit "out") [(lit "a.ts", Generated (lit "x")); (lit "b.ts", Generated (lit "y"))] None.
+  MultiFile (lit "out") [(lit "A.swift", Generated (lit "x")); (lit "B.swift", Generated (lit "y"))]
+            (Some (lit "public struct CodableVoid: Codable {}")).
 
 Example C17_nonvacuous :
-  NoDup (may_touch ex_o) /\ known_C17 ex_o = None /\ nonempty_outputs ex_o = true /\
-  responsible ex_o = [(lit "out/a.ts", lit "x"); (lit "out/b.ts", lit "y")] /\
-  run (run [(lit "out/a.ts", (lit "old", 0)); (lit "keep", (lit "k", 0))] 1 ex_o) 2 ex_o =
-    [(lit "out/a.ts", (lit "x", 1)); (lit "keep", (lit "k", 0)); (lit "out/b.ts", (lit "y", 1))].
+  NoDup (may_touch ex_o) /\ nonempty_outputs ex_o = true /\
+  responsible ex_o = [(lit "out/A.swift", lit "x"); (lit "out/B.swift", lit "y");
+                      (lit "out/Codable.swift", lit "public struct CodableVoid: Codable {}" ++ [ch_nl])] /\
+  run (run [(lit "out/A.swift", (lit "old", 0)); (lit "keep", (lit "k", 0))] 1 ex_o) 2 ex_o =
+    [(lit "out/A.swift", (lit "x", 1)); (lit "keep", (lit "k", 0)); (lit "out/B.swift", (lit "y", 1));
+     (lit "out/Codable.swift", (lit "public struct CodableVoid: Codable {}" ++ [ch_nl], 1))].
 Proof.
   split; [repeat constructor; simpl; intuition discriminate|].
   repeat split; vm_compute; reflexivity.
